@@ -596,6 +596,32 @@ def run_table_key_kinds(chk, spec):
 
 RUNNERS.update({"table_key_kinds": run_table_key_kinds})
 
+
+def run_empty_compare(chk, spec):
+	"""a typed empty vector (what a filter leaves) compared with an empty vector that was never typed: zero answers, not an exception from looking at a schema that is not there"""
+	import operator
+	from datetime import date
+	kinds = {"date": [date(2020, 1, 1)], "int": [1], "str": ["a"], "datetime-promoted": [date(2020, 1, 1)]}
+	src = Vector(list(kinds[spec["kind"]]))
+	if spec["kind"] == "datetime-promoted":
+		from datetime import datetime
+		src[0] = datetime(2020, 1, 1, 5)
+	typed = src[0:0]
+	untyped = Vector([])
+	op = getattr(operator, spec["opname"])
+	a, b = (typed, untyped) if spec["side"] == "typed-left" else (untyped, typed)
+	o = call(op, a, b)
+	chk.judged("compare", ("empty-compare", spec["kind"], spec["opname"], spec["side"]))
+	if not o.ok:
+		if isinstance(o.exc, (AttributeError, IndexError)):
+			chk.fail("comparisons return boolean vectors computed elementwise", f"compare/raises/empty-typed-vs-untyped/{spec['kind']}/{type(o.exc).__name__}", f"{spec!r}: two operands of length 0: {o!r}")
+		return
+	if isinstance(o.value, Vector) and len(o.value) != 0:
+		chk.fail("a comparison has one answer per element", "compare/length/empty-typed-vs-untyped", f"{spec!r}: {o.value!r}")
+
+
+RUNNERS.update({"empty_compare": run_empty_compare})
+
 def run_self_compare(chk, spec):
 	# x <op> x, the object itself on both sides (a vector, a row kept from a table, a whole table): the same answer as x <op> (an equal,
 	# separate object) - the library copies an operand that is the left operand itself, and that copy has to work for every kind of vector
@@ -981,6 +1007,11 @@ def run(chk):
 		chk.case("table_rows", {"table": ts, "rows": gen_rows(rng, n, allow_wrong=True)}, "table-rows")
 		if n and len(set(ts["names"])) == len(ts["names"]):
 			chk.case("self_compare", {"table": ts, "target": rng.choice(["table", "row", "column"]), "i": rng.randrange(n), "opname": rng.choice(["eq", "ne", "lt", "le", "gt", "ge"])}, "compare")
+		if _ == 0:
+			for kind in ("date", "int", "str", "datetime-promoted"):
+				for opname in ("eq", "ne", "lt", "ge"):
+					for side in ("typed-left", "typed-right"):
+						chk.case("empty_compare", {"kind": kind, "opname": opname, "side": side}, "compare-empty")
 		if n and len(set(ts["names"])) == len(ts["names"]):
 			chk.case("table_key_kinds", {"table": ts, "key": rng.choice(["int-list", "int-list-negative", "int-vector", "float", "none", "float-list", "str-list", "set", "nullable-mask-with-none", "bytes", "range"])}, "table-key-kinds")
 		if n:
